@@ -1,6 +1,7 @@
 (* C18 -- shift / zoom evaluate the spline interpolant at the mapped coordinates (exact statements for order 1). *)
 Require Import QArith Qabs Qround.
 Require Import MV.Base.Prelude MV.Base.QHelp MV.Gen.Scalar_gen MV.Model.Interp MV.Proof.InterpProof MV.Proof.SplineProof.
+Require Import MV.Proof.ShiftProof.
 Open Scope Q_scope.
 
 (* coordinates inside the array are not touched by the border map (any mode) *)
@@ -39,3 +40,19 @@ Theorem C18_constant_signal_reproduced : forall order mode dat c x,
   (order = 1 \/ order = 2 \/ order = 3 \/ order = 4)%Z -> Forall (fun v => v == c) dat -> (1 <= Zlen dat)%Z ->
   0 <= x -> x <= inject_Z (Zlen dat - 1) -> interp1 order mode dat x == c.
 Proof. exact constant_signal_reproduced. Qed.
+
+(* an integer shift is an exact translation: the pixel k of the result is the sample k - s whenever that lies in the array (every
+   border mode) ... *)
+Theorem C18_integer_shift_translates : forall mode dat s k, (0 <= k < Zlen dat)%Z -> (0 <= k - s < Zlen dat)%Z ->
+  nthZ 0 (shift1 1 mode dat (zq s)) k == nthZ 0 dat (k - s)%Z.
+Proof. exact shift_integer_inside. Qed.
+
+(* ... and the vacated pixels are filled by the border rule: cval = 0 in the constant and ignore modes, the edge sample in
+   nearest mode *)
+Theorem C18_integer_shift_fills_with_cval : forall mode dat s k, (0 <= k < Zlen dat)%Z -> (k - s < 0 \/ Zlen dat <= k - s)%Z ->
+  mode = ExtendConstant \/ mode = ExtendIgnore -> nthZ 0 (shift1 1 mode dat (zq s)) k == 0.
+Proof. exact shift_integer_outside_constant. Qed.
+
+Theorem C18_integer_shift_nearest_replicates_edge : forall dat s k, (0 <= k < Zlen dat)%Z -> (k - s < 0 \/ Zlen dat <= k - s)%Z ->
+  nthZ 0 (shift1 1 ExtendNearest dat (zq s)) k == nthZ 0 dat (if (k - s <? 0)%Z then 0 else Zlen dat - 1)%Z.
+Proof. exact shift_integer_outside_nearest. Qed.
